@@ -457,3 +457,17 @@ def linker_unlock_order(repo=None):
     if re.search(r"^\s*unlock\(\)", seg, re.M):
         return "before-run"
     return "after-run"
+
+
+def crashsup_bin():
+    """The ptrace supervisor (engine C crash points), compiled on demand."""
+    out = os.path.join(CACHE, "bin", "crashsup")
+    src = os.path.join(VERIF, "crashsup", "crashsup.c")
+    with lock(out + ".lock"):
+        if not os.path.exists(out) or os.path.getmtime(out) < os.path.getmtime(src):
+            os.makedirs(os.path.dirname(out), exist_ok=True)
+            p = run(["gcc", "-O2", "-o", out + ".tmp", src])
+            if p.returncode != 0:
+                log("FATAL: cannot compile crashsup:", p.stderr.decode()); sys.exit(2)
+            os.rename(out + ".tmp", out)
+    return out
